@@ -3,6 +3,10 @@
 package fsm
 
 import (
+	"fmt"
+	"sort"
+	"strings"
+
 	"github.com/canopy-network/canopy/lib"
 	"github.com/canopy-network/canopy/lib/crypto"
 )
@@ -55,3 +59,19 @@ func (s *StateMachine) VerifSlash(address []byte, chainId, percent uint64) (alre
 
 // VerifResetSlashTracker starts a fresh per-block slash tracker (what BeginBlock does).
 func (s *StateMachine) VerifResetSlashTracker() { s.slashTracker = NewSlashTracker() }
+
+// VerifSlashTrackerDigest renders the per-block slash tracker (validator -> committee -> percent slashed so far) in a canonical
+// order, so that its CONTENT (not just its size) can be compared before and after a failed transaction.
+func (s *StateMachine) VerifSlashTrackerDigest() string {
+	if s.slashTracker == nil {
+		return ""
+	}
+	var rows []string
+	for addr, byChain := range *s.slashTracker {
+		for chain, pct := range byChain {
+			rows = append(rows, fmt.Sprintf("%x/%d=%d", addr, chain, pct))
+		}
+	}
+	sort.Strings(rows)
+	return strings.Join(rows, ",")
+}
